@@ -555,7 +555,10 @@ func c13Batch(c *Check, tier string) int {
 		nviol++
 		s2 := *h.sess
 		s2.Requests = s2.Requests[:h.upto]
-		min := c13Minimise(&s2, k)
+		min := &s2
+		if mayMinimise() {
+			min = c13Minimise(&s2, k)
+		}
 		v := &kit.Violation{Property: "C13", Oracle: strings.SplitN(k, ":", 2)[0], Key: k, Detail: h.detail, Seed: seed, LogHash: h.hash, Scenario: mustJSON(min), Minimised: true}
 		path, err := kit.WriteReplay(v)
 		if err != nil {
